@@ -14,7 +14,7 @@ class C03(RunProp):
                 'type->outcome mapping is stated independently of the exception_handlers table extracted from testcase.py; a theorem proves '
                 'the extracted table implements it, so a reordered table breaks the proof and the differential check finds the failing test.',
         'note': 'trusted: Lean kernel; model TTV/Model/RunTest.lean; harness/mrun.py; hypotheses: wf (distinct stage ids, user handlers only for '
-                'Exception subclasses), user handlers report unsuccessful outcomes for no-downgrade / do not report success for success-iff '
+                'Exception subclasses; further conjuncts concern C02/C05 only), user handlers report unsuccessful outcomes for no-downgrade / do not report success for success-iff '
                 '(a user handler is arbitrary code); 2.6-style results not judged for success-iff (they show skip as success, see C08)',
         'technique': 'Lean 4 proofs about exception selection (list folds) over the M-Run model, generated handler table proved against a documented mapping, differential correspondence',
     }
